@@ -337,7 +337,7 @@ func C17(run *core.Run) {
 	// max_subscriptions of the NIP-11 chain (stateful: judged with the Quota specification)
 	nh := 60
 	if run.Thorough() {
-		nh = 600
+		nh = 4000
 	}
 	quotaThroughNIP11(run, conc, nh, 7, "c17-quota")
 	run.Set("rule", "Limits.tla defines Decide for the seven stateless limit middlewares, StackDecide for stacks and Chain for NIP-11 limitation blocks; TLC enumerates every middleware x limit {1,2,5} (times 60/3600 s) x message type x size below/at/above (timestamps +-5 s around the moving boundary), every ordered pair of four middlewares x messages violating none/one/both, and every subset of the six stateless NIP-11 limits (and no block, nil document) x messages (quick: a seeded quarter); each case runs through the real concurrent wrapper around a recording handler, the message embedded between two unrelated client messages while the handler emits server messages: downstream receives exactly the non-rejected messages unchanged, the client exactly the handler's messages in order plus one rejection of the right type and id. Allow/deny filters are judged by TLC (Nostr!MatchesAny). distinct_nontrivial = distinct rejecting cases")
@@ -367,7 +367,7 @@ func c17AllowDeny(run *core.Run, conc *abs.Conc, ev *mocrelay.Event, distinct *c
 	r := run.Rand("c17-allow")
 	n := 40
 	if run.Thorough() {
-		n = 400
+		n = 3000
 	}
 	var traces []tv.Trace
 	for t := 0; t < n; t++ {
@@ -426,7 +426,7 @@ func c17AllowDeny(run *core.Run, conc *abs.Conc, ev *mocrelay.Event, distinct *c
 		distinct.Add(tr.Name)
 		traces = append(traces, tr)
 	}
-	out, err := tv.Validate(matcherTraceSpec, nil, traces, 6)
+	out, err := tv.ValidateChunks(matcherTraceSpec, nil, traces, 6, 300, 8)
 	if out != nil {
 		run.Add("traces_validated_against_impl", int64(out.Accepted+len(out.Rejects)))
 	}
